@@ -3,6 +3,9 @@ import json, os, subprocess
 ROOT = os.path.dirname(os.path.dirname(os.path.abspath(__file__)))
 
 CHECKS = {
+    "C01": ("P progcheck", "bounded-exhaustive enumeration of programs (compiled by the real macros through rustc) x all input databases, compared with a naive reference evaluator",
+            "Families F-shape (every rule body of <= 2 clauses over unary/binary relations with every bound/free/repeated/constant/wildcard argument pattern, plus if / let / if-let / for items attached or separate, in a recursive context) and F-scc (all dependency skeletons of <= 3 rules over <= 3 derived relations up to renaming, multi-head rules); every program is run on all 4096 databases over {0,1} (F-scc: all databases with <= 4 facts) with facts in every relation, and every relation is compared with the least model computed by a naive evaluator.",
+            "programs are a cut of the program space (families), domain size 2; reference evaluator and AST printer trusted", "6 C01"),
     "C16": ("H histcheck", "exhaustive enumeration (all pairs / triples over complete small carriers) on the real Lattice impls",
             "All 256 values of u8/i8 (pairs; triples in thorough), boundary carriers for wider integers, complete carriers for every shipped composite lattice incl. nestings; every law of the property is evaluated on every pair/triple of the real implementation.",
             "rustc/std trusted; wide integers only at boundary values", "6 C16"),
